@@ -36,7 +36,7 @@ var fsmNonState = map[string]string{
 }
 
 type fsmFacts struct {
-	applyFns   []*ssa.Function          // functions reachable from Apply inside the package (methods of ClusterFSM + helpers)
+	applyFns   []*ssa.Function              // functions reachable from Apply inside the package (methods of ClusterFSM + helpers)
 	writes     map[string][]ssa.Instruction // field -> writes inside the apply closure
 	writesByFn map[*ssa.Function]map[string][]ssa.Instruction
 }
